@@ -180,7 +180,7 @@ pub fn as_position(index: usize, text: &str) -> Position {
             line += 1;
             character = 0;
         } else {
-            character += 1;
+            character += c.len_utf16() as u32;
         }
     }
     Position { line, character }
@@ -211,14 +211,14 @@ pub fn get_insertion_index(position: &Position, text: &str) -> usize {
     let mut character = 0;
     let pos = (position.line, position.character);
     for (i, c) in text.char_indices() {
-        if (line, character) == pos {
+        if line == pos.0 && character >= pos.1 {
             return i;
         }
         if c == '\n' {
             line += 1;
             character = 0;
         } else {
-            character += 1;
+            character += c.len_utf16() as u32;
         }
     }
     text.len()
